@@ -57,6 +57,8 @@ impl<'p> Fin<'p> for DropFin {
     }
 }
 
+pub const POISON_ARG: u8 = 9;
+
 #[derive(Clone, Copy)]
 pub struct Ids {
     pub li: usize,
@@ -97,6 +99,10 @@ macro_rules! chain_fns {
                 let noisy = (ids.li + ids.pi) % 2 == 0;
                 move |m: &mut Matching<F>| {
                     m.func(move |a: &u8, r| {
+                        if *a == POISON_ARG {
+                            // user code inside the matcher panics (PoisonArg of tla/Mock.tla)
+                            std::panic::panic_any(UserPanic(9));
+                        }
                         if noisy {
                             r.pat_fail(0, Some("noise"), Some("noise"));
                         }
